@@ -41,18 +41,85 @@ def reads_of_field(body, path_proj):
     return out
 
 
+def find_field(F, name, module="selium::keep_alive::backoff_strategy::"):
+    """(adt path, field index) of the struct field called `name` in the back-off module"""
+    from ..facts import AnchorMissing
+    hits = []
+    for p_, a in F.adts.items():
+        if p_.startswith(module) and a.get("variants"):
+            for v in a["variants"]:
+                for i, f in enumerate(v["fields"]):
+                    if f["name"] == name:
+                        hits.append((p_, i))
+    hits = [h for h in hits if h[0] != NEXTA]          # (the yielded NextAttempt repeats the configured maximum)
+    if len(hits) != 1:
+        raise AnchorMissing("expected exactly one field `%s` in %s*, found %s" % (name, module, hits))
+    return hits[0]
+
+
+def self_reads(body):
+    """local -> projection path (without derefs) for locals assigned from a place inside *self"""
+    out = {}
+    for i, j, pl, rv, s in body.assigns():
+        p = None
+        if rv["k"] == "use" and rv["op"].get("k") in ("copy", "move") and not pl["p"]:
+            p = rv["op"]["pl"]
+        elif rv["k"] == "ref" and not pl["p"]:
+            p = rv["pl"]            # a reference to the place (match-guard bindings read through one)
+        if p is not None and p["l"] == 1 and [e for e in p["p"] if e != "*"]:
+            out[pl["l"]] = tuple(e if isinstance(e, int) else ("v", e.get("vn")) for e in p["p"] if e != "*")
+    return out
+
+
+def counter_locals(nx):
+    """(cur locals, path): the value yielded as attempt_num is read from this place of the iterator's own state"""
+    an_adt, an = NEXTA, None
+    reads = self_reads(nx)
+    for i, j, pl, rv, s in K.aggregates(nx, NEXTA):
+        idx = rv["fields"].index("attempt_num") if "attempt_num" in rv.get("fields", []) else None
+        if idx is None:
+            continue
+        rl = flow.root_local(nx, rv["ops"][idx])
+        # follow plain copies back to the read of self state
+        seen = set()
+        while rl is not None and rl not in reads and rl not in seen:
+            seen.add(rl)
+            d = flow.single_def(nx, rl)
+            if d and d[0] == "assign" and d[3]["k"] == "use" and d[3]["op"].get("k") in ("copy", "move") and not d[3]["op"]["pl"]["p"]:
+                rl = d[3]["op"]["pl"]["l"]
+            else:
+                break
+        if rl in reads:
+            path = reads[rl]
+            return {l for l, p_ in reads.items() if p_ == path}, path
+    return set(), None
+
+
 def count_shape(ctx, F, nx, ii):
-    """D3; returns True when the invariant current_attempt >= 1 is established"""
+    """D3; returns True when the invariant `attempt counter >= 1` is established. The counter is identified by what it is used for —
+    the place of the iterator's state whose value is yielded as `attempt_num` — not by its name or representation"""
     good = True
-    ca = field_index(F, ITER, "current_attempt")
+    cur, path = counter_locals(nx)
+    if not ctx.check(path is not None, "C13.D3.attempt-num", "next:attempt-num", "the yielded attempt_num is read from the iterator's own state", nx.span):
+        return False
+    top = path[0]
+    # into_iter: the counter starts at the constant 1 (possibly wrapped in an enum / struct of the state)
     aggs = K.aggregates(ii, ITER)
-    ok = len(aggs) == 1 and flow.const_of(aggs[0][3]["ops"][ca]) == 1
-    good &= ctx.check(ok, "C13.D3.starts-at-1", "into_iter:start", "into_iter initialises current_attempt to the constant 1", ii.span)
-    cur = reads_of_field(nx, [ca])
-    st = field_index(F, ITER, "state")
-    sa = F.adt("selium::keep_alive::backoff_strategy::BackoffStrategyState")
-    ma = [f["name"] for f in sa["variants"][0]["fields"]].index("max_attempts")
-    mx = reads_of_field(nx, [st, ma])
+    def holds_one(op, depth=0):
+        if flow.const_of(op) == 1:
+            return True
+        if depth > 3 or op.get("k") not in ("copy", "move"):
+            return False
+        r = flow.root(ii, op)
+        if r[0] == "const":
+            return flow.const_of(r[1]) == 1
+        if r[0] == "rv" and r[1]["k"] == "agg":
+            return any(holds_one(o, depth + 1) for o in r[1]["ops"])
+        return False
+    ok = len(aggs) == 1 and isinstance(top, int) and top < len(aggs[0][3]["ops"]) and holds_one(aggs[0][3]["ops"][top])
+    good &= ctx.check(ok, "C13.D3.starts-at-1", "into_iter:start", "into_iter initialises the attempt counter to the constant 1", ii.span)
+    madt, ma = find_field(F, "max_attempts")
+    mx = {l for l, p_ in self_reads(nx).items() if p_ and p_[-1] == ma and len(p_) >= 2}
     curv = flow.derived(nx, cur, calls=())
     mxv = flow.derived(nx, mx, calls=())
     # exit comparison
@@ -69,46 +136,71 @@ def count_shape(ctx, F, nx, ii):
             found = True
             nones = {i2 for i2, j, pl, rv, s in K.aggregates(nx, "core::option::Option") if rv["variant"] == "None" and pl["l"] == 0}
             somes = {i2 for i2, j, pl, rv, s in K.aggregates(nx, "core::option::Option") if rv["variant"] == "Some" and pl["l"] == 0}
-            t_r, f_r = nx.reachable(sc["true"]), nx.reachable(sc["false"])
-            shape = op == "Gt" and (nones & t_r) and not (somes & t_r) and (somes & f_r) and not (nones & f_r)
+            # normalise to the edge on which counter > max_attempts holds
+            if op == "Gt":
+                over, within = sc["true"], sc["false"]
+            elif op == "Le":
+                over, within = sc["false"], sc["true"]
+            else:
+                over = within = None
+            shape = False
+            if over is not None:
+                o_r = flow.reach_avoiding(nx, [over], [i])
+                w_r = flow.reach_avoiding(nx, [within], [i])
+                shape = bool(nones & o_r) and not (somes & (o_r - w_r)) and bool(somes & w_r)
             good &= ctx.check(bool(shape), "C13.D3.exit-comparison", "next:exit-cmp",
-                              "the schedule ends (None) exactly when current_attempt > max_attempts (found: current_attempt %s max_attempts)" % op, b["term"]["span"])
-    good &= ctx.check(found, "C13.D3.exit-comparison", "next:no-exit-cmp", "next() compares current_attempt with max_attempts", nx.span)
-    # writes to the counter field
+                              "the schedule ends (None) exactly when the attempt counter > max_attempts (found: counter %s max_attempts)" % op, b["term"]["span"])
+    good &= ctx.check(found, "C13.D3.exit-comparison", "next:no-exit-cmp", "next() compares the attempt counter with max_attempts", nx.span)
+    # writes to the counter's place in the state
     writes = []
     for i, j, pl, rv, s in nx.assigns():
-        if pl["l"] == 1 and [e for e in pl["p"] if e != "*"] == [ca]:
+        pp = tuple(e if isinstance(e, int) else ("v", e.get("vn")) for e in pl["p"] if e != "*")
+        if pl["l"] == 1 and pp and pp[0] == top and (pp == path[:len(pp)] or path == pp[:len(path)]):
             writes.append((i, rv, s))
-    good &= ctx.check(len(writes) >= 1, "C13.D3.increment", "next:no-increment", "next() advances current_attempt", nx.span)
+    good &= ctx.check(len(writes) >= 1, "C13.D3.increment", "next:no-increment", "next() advances the attempt counter", nx.span)
     wblocks = []
-    for i, rv, s in writes:
-        r = flow.root(nx, rv["op"]) if rv["k"] == "use" else ("rv", rv)
-        plus1 = False
+
+    def is_plus1(op, depth=0):
+        """the operand is counter + 1 (checked or not), possibly wrapped in an aggregate of the state's representation"""
+        if op.get("k") not in ("copy", "move") or depth > 3:
+            return False
+        r = flow.root(nx, op)
         if r[0] == "rv" and r[1]["k"] == "binop" and r[1]["op"] in ("AddWithOverflow", "Add", "AddUnchecked") and flow.const_of(r[1]["b"]) == 1:
             src = r[1]["a"]
-            plus1 = (src.get("k") in ("copy", "move") and ((src["pl"]["l"] == 1 and [e for e in src["pl"]["p"] if e != "*"] == [ca]) or op_local(src) in curv))
-        elif r[0] == "call" and strip_generics(r[1].callee) in ("core::num::<impl u32>::checked_add", "core::num::<impl u32>::saturating_add") \
+            return src.get("k") in ("copy", "move") and (op_local(src) in curv or (src["pl"]["l"] == 1 and tuple(e for e in src["pl"]["p"] if e != "*") == path))
+        if r[0] == "call" and strip_generics(r[1].callee) in ("core::num::<impl u32>::checked_add", "core::num::<impl u32>::saturating_add") \
                 and flow.const_of(r[1].args[1]) == 1 and (op_local(r[1].args[0]) in curv):
-            plus1 = True
-        else:
-            # value bound from the `Some(next)` of checked_add(1)
-            rr = flow.payload_source(nx, rv["op"]) if rv["k"] == "use" else None
-            if rr and rr[0] == "call" and strip_generics(rr[1].callee) == "core::num::<impl u32>::checked_add" \
-                    and flow.const_of(rr[1].args[1]) == 1 and op_local(rr[1].args[0]) in curv:
-                plus1 = True
-        good &= ctx.check(plus1, "C13.D3.increment", "next:counter-write-not-plus1", "the only writes to current_attempt are `+ 1` (checked or not)", s["span"])
+            return True
+        rr = flow.payload_source(nx, op)
+        if rr and rr[0] == "call" and strip_generics(rr[1].callee) == "core::num::<impl u32>::checked_add" \
+                and flow.const_of(rr[1].args[1]) == 1 and op_local(rr[1].args[0]) in curv:
+            return True
+        if r[0] == "rv" and r[1]["k"] == "agg":
+            ops_ = r[1]["ops"]
+            return (not ops_) or any(is_plus1(o, depth + 1) for o in ops_)       # a unit variant = the "exhausted" marker
+        if r[0] == "multi":
+            # a `match` producing the new state: every definition is +1 or an exhausted marker
+            ds = [d for d in nx.defs().get(r[1], []) if d[0] == "assign"]
+            return bool(ds) and all((d[3]["k"] == "agg" and ((not d[3]["ops"]) or any(is_plus1(o, depth + 1) for o in d[3]["ops"]))) or
+                                    (d[3]["k"] == "use" and is_plus1(d[3]["op"], depth + 1)) for d in ds)
+        return False
+    for i, rv, s in writes:
+        plus1 = False
+        if rv["k"] == "use":
+            plus1 = is_plus1(rv["op"])
+        elif rv["k"] == "agg":
+            plus1 = (not rv["ops"]) or any(is_plus1(o) for o in rv["ops"])
+        elif rv["k"] == "binop":
+            plus1 = rv["op"] in ("AddWithOverflow", "Add") and flow.const_of(rv["b"]) == 1
+        good &= ctx.check(plus1, "C13.D3.increment", "next:counter-write-not-plus1", "the only writes to the attempt counter are `+ 1` (checked or not) or the exhausted marker", s["span"])
         wblocks.append(i)
-    # attempt_num is the pre-increment value
-    an = field_index(F, NEXTA, "attempt_num")
-    for i, j, pl, rv, s in K.aggregates(nx, NEXTA):
-        rl = flow.root_local(nx, rv["ops"][an])
-        pre = rl in cur
-        # the read of the counter precedes every write
-        if pre:
-            for d in nx.defs().get(rl, []):
-                if d[0] == "assign":
-                    pre &= all(nx.dominates(d[1], w) and d[1] != w or (d[1] == w) for w in wblocks)
-        good &= ctx.check(pre, "C13.D3.attempt-num", "next:attempt-num", "the yielded attempt_num is the value of current_attempt read before the increment", s["span"])
+    # attempt_num is the pre-increment value: its read of the state precedes every write
+    pre = True
+    for l in cur:
+        for d in nx.defs().get(l, []):
+            if d[0] == "assign":
+                pre &= all((nx.dominates(d[1], w) and d[1] != w) or d[1] == w or not (d[1] in flow.reach_avoiding(nx, [w], [])) for w in wblocks)
+    good &= ctx.check(pre, "C13.D3.attempt-num", "next:attempt-num-order", "the yielded attempt_num is the counter's value read before the increment", nx.span)
     return good
 
 
@@ -127,8 +219,7 @@ def run(ctx):
         # current_attempt - 1 cannot underflow when the count-shape invariant (>= 1) holds
         if site.kind == "assert" and site.what == "overflow:Sub" and body is nx:
             det = site.extra.get("detail", {})
-            ca = field_index(F, ITER, "current_attempt")
-            cur = flow.derived(nx, reads_of_field(nx, [ca]), calls=())
+            cur = flow.derived(nx, counter_locals(nx)[0], calls=())
             if flow.const_of(det.get("b", {})) == 1 and op_local(det.get("a", {})) in cur and shape_ok:
                 return "D6: current_attempt >= 1 by the count-shape invariant (starts at 1, only +1)"
         return None
@@ -218,8 +309,7 @@ def run(ctx):
     ctx.floor("C13.D4.signature.strategies", len(arms), 3)
     stp = [f["name"] for f in sa["variants"][0]["fields"]].index("step")
     stepv = flow.derived(nx, reads_of_field(nx, [st, stp]), calls="all")
-    ca = field_index(F, ITER, "current_attempt")
-    curv = flow.derived(nx, reads_of_field(nx, [ca]), calls="all")
+    curv = flow.derived(nx, counter_locals(nx)[0], calls="all")
     facv = set()
     for i2, j, pl2, rv, s in nx.assigns():
         if rv["k"] == "use" and rv["op"].get("k") in ("copy", "move") and any(isinstance(e, dict) and e.get("vn") == "Exponential" for e in rv["op"]["pl"]["p"]):
